@@ -384,7 +384,7 @@ class World:
         write_bytes(full, ("\n".join(lines) + "\n").encode())
         return {}
 
-    def op_set_gitignore(self, patterns, where=""):
+    def op_set_gitignore(self, patterns, where="", eol="\n", final_eol=True):
         if patterns is not None:
             patterns = self._encodable(patterns)
         full = self.p(os.path.join(where, ".gitignore") if where else ".gitignore")
@@ -396,7 +396,7 @@ class World:
             if os.path.lexists(full):
                 REAL["os.unlink"](full)
             return {}
-        write_bytes(full, ("\n".join(patterns) + "\n").encode())
+        write_bytes(full, (eol.join(patterns) + (eol if final_eol else "")).encode())
         return {}
 
     # -- cache faults ---------------------------------------------------------
@@ -591,7 +591,7 @@ class World:
         import click
         # what a real process start would reset
         if new_process:
-            seams.restore_module_state()
+            seams.restore_module_state(cwd=cwd)
         Configuration.exclude = []
         Configuration.verbose = False
         Configuration.repository = None
